@@ -903,8 +903,16 @@ impl CxxCodeBodyTranslator {
                             .chain(formatted_args)
                             .join(" << ")
                     }
-                    BuiltinFunctionKind::Max => format!("std::max({})", formatted_args.join(", ")),
-                    BuiltinFunctionKind::Min => format!("std::min({})", formatted_args.join(", ")),
+                    BuiltinFunctionKind::Max => format!(
+                        "std::max{}({})",
+                        min_max_template_args(args),
+                        formatted_args.join(", ")
+                    ),
+                    BuiltinFunctionKind::Min => format!(
+                        "std::min{}({})",
+                        min_max_template_args(args),
+                        formatted_args.join(", ")
+                    ),
                     BuiltinFunctionKind::Tr => format!(
                         "QCoreApplication::translate({context:?}, {args})",
                         context = self.tr_context,
@@ -1016,6 +1024,20 @@ fn format_cxx_string_literal(s: &str) -> String {
     }
     literal.push('"');
     literal
+}
+
+/// Explicit template arguments needed for `std::min()`/`max()` to take the given `args`.
+///
+/// An integer literal is printed as `int`, which would conflict with the other `uint`
+/// argument on template argument deduction.
+fn min_max_template_args(args: &[tir::Operand]) -> &'static str {
+    if args.iter().any(|a| a.type_desc() == TypeDesc::UINT)
+        && args.iter().any(|a| a.type_desc() == TypeDesc::ConstInteger)
+    {
+        "<uint>"
+    } else {
+        ""
+    }
 }
 
 fn is_double_rem(l: &tir::Operand, r: &tir::Operand) -> bool {
